@@ -122,6 +122,6 @@ PROPS['C12'] = dict(
 )
 
 PROPS['C11'] = dict(
-    unit_modules=[], driver_modules=['drivers.c11'], level='other',
+    unit_modules=['contracts.c11_reader'], driver_modules=['drivers.c11'], level='other',
     level_text='tbd', level_note='tbd', assumptions=COMMON_ASSUMPTIONS,
 )
